@@ -181,6 +181,9 @@ pub fn adversarial(kind: &str, n: usize, stack_kb: usize) -> String {
         "ecma" => { for _ in 0..n { bs.extend_from_slice(&[8, 0xff, 0xff, 0xff, 0xff, 0, 1, b'a']); } }
         "mix" => { for i in 0..n { match i % 3 { 0 => bs.extend_from_slice(&[10, 0, 0, 0, 2]), 1 => bs.extend_from_slice(&[3, 0, 1, b'a']), _ => bs.extend_from_slice(&[8, 0, 0, 0, 0, 0, 2, b'b', b'c']) } } }
         "count" => { for _ in 0..n { bs.extend_from_slice(&[10, 0xff, 0xff, 0xff, 0xff]); } }
+        // a long run of one byte value, every value 0..255 (n = the byte): whatever the decoder makes of a marker, it
+        // must not recurse once per byte
+        "run" => { bs = vec![n as u8; 400_000]; }
         // an ECMA array opened below n objects, n-1 strict arrays resp., then 100000 more levels: whatever sits at the
         // limit, the input nests deeper than 128 and must be refused
         "edge_obj" => { for _ in 0..n { bs.extend_from_slice(&[3, 0, 1, b'a']); } bs.extend_from_slice(&[8, 0, 0, 0, 0, 0, 1, b'a']); for _ in 0..100_000 { bs.extend_from_slice(&[10, 0, 0, 0, 1]); } }
